@@ -7,7 +7,7 @@ import hashlib
 
 from ..engine.context import Context, expand
 from ..engine.loader import NotConst, walk_expr, walk_own
-from ..engine.terms import Terms, contains, show, strip_sites, subterms
+from ..engine.terms import Terms, contains, has_unknown, show, strip_sites, subterms
 from ..spec.srp import GENERATOR, KEY_LENGTH, k_value, modulus_3072
 
 PROPERTY = "C02"
@@ -363,6 +363,68 @@ def _norm(t):
     return t
 
 
+def _subst_params(t, m: dict):
+    if not isinstance(t, tuple):
+        return t
+    if len(t) == 2 and t[0] == "param" and t[1] in m:
+        return m[t[1]]
+    if t and t[0] == "const":
+        return t
+    return tuple(_subst_params(x, m) for x in t)
+
+
+def make_expander(ctx: Context, T):
+    """-> expand(term): calls of the client's own *formula helpers* (a method of SrpClient / Srp with fixed parameters, one
+    `return <expression>` and no attribute store - `_calculate_u`, `verify_servers_proof`, `_calculate_k` ...) are replaced by
+    the formula they return, arguments substituted, so that a formula compares equal whether it is written through the
+    helper or spelled out in place; `==` operands are put in one order.  Each helper's own formula is checked on its own."""
+    cache: dict = {}
+
+    def formula(name: str):
+        if name in cache:
+            return cache[name]
+        cache[name] = None
+        g = None
+        for cn in (CLI, SRP):
+            c = ctx.prog.classes.get(cn)
+            if c is not None and name in c.methods:
+                g = c.methods[name]
+                break
+        if g is None or isinstance(g.node, ast.Lambda):
+            return None
+        a = g.node.args
+        if a.vararg or a.kwarg or a.kwonlyargs or not g.pos_params:
+            return None
+        if any(isinstance(x, (ast.Assign, ast.AugAssign, ast.AnnAssign)) and any(isinstance(y, ast.Attribute) and isinstance(y.ctx, ast.Store) for y in ast.walk(x))
+               for x in walk_own(g.node)):
+            return None
+        cfg = ctx.cfg(g.qualname)
+        rets = [n for n in cfg.nodes if n.kind == "return"]
+        if len(rets) != 1 or not rets[0].exprs or rets[0].exprs[0] is None:
+            return None
+        t = _norm(strip_sites(T.of(cfg, rets[0], rets[0].exprs[0])))
+        if has_unknown(t):
+            return None
+        cache[name] = (g.pos_params, t)
+        return cache[name]
+
+    def expand(t, depth=0):
+        if not isinstance(t, tuple) or not t or t[0] == "const":
+            return t
+        t = tuple(expand(x, depth) for x in t)
+        if len(t) >= 4 and t[0] == "call" and isinstance(t[1], tuple) and len(t[1]) == 3 and t[1][0] == "attr" and t[1][1] == ("param", "self") and not t[3] and depth < 8:
+            fm = formula(t[1][2])
+            if fm is not None and len(fm[0]) - 1 == len(t[2]) and not any(isinstance(x, tuple) and x[:1] == ("star",) for x in t[2]):
+                m = {p: a for p, a in zip(fm[0][1:], t[2])}
+                m[fm[0][0]] = ("param", "self")
+                return expand(_subst_params(fm[1], m), depth + 1)
+        if len(t) == 3 and t[0] == "cmp" and t[1] in (("Eq",), ("NotEq",)) and len(t[2]) == 2:
+            return ("cmp", t[1], tuple(sorted(t[2], key=repr)))
+        return t
+
+    return expand
+
+
 def _single_return(ctx, T, q):
     f = ctx.func(q)
     cfg = ctx.cfg(q)
@@ -373,13 +435,14 @@ def _single_return(ctx, T, q):
 def _t2(ctx: Context) -> None:
     ck = ctx.ck
     T = _terms(ctx)
+    fexpand = make_expander(ctx, T)
 
     def expect(q, want, what, pick=None):
         f, cfg, rets = _single_return(ctx, T, q)
         if pick is not None:
             rets = [r for r in rets if pick(strip_sites(T.of(cfg, r, r.exprs[0])))]
         got = [_norm(strip_sites(T.of(cfg, r, r.exprs[0]))) for r in rets]
-        ok = len(got) == 1 and got[0] in [_norm(w) for w in (want if isinstance(want, list) else [want])]
+        ok = len(got) == 1 and fexpand(got[0]) in [fexpand(_norm(w)) for w in (want if isinstance(want, list) else [want])]
         ck.check("C02.T2", ok, what, f"{ctx.fkey(f)}:formula", f"{f.qualname.split('.')[-2]}.{f.name} computes {[show(g, 300) for g in got]}; specification: {what}", f.loc())
 
     user_pass = ("call", ("attr", ("fstr", (("fmt", S("username"), -1, None), ("const", ":"), ("fmt", S("password"), -1, None))), "encode"), (), ())
@@ -430,7 +493,7 @@ def _t2(ctx: Context) -> None:
         "k": meth("_calculate_k"),
     }
     for a, w in rows.items():
-        ck.check("C02.T2", asg.get(a) == w, f"SrpClient.{a} = {show(w, 60)}", f"{ctx.fkey(init)}:{a}", f"SrpClient.__init__ sets {a} = {show(asg.get(a, ('unknown', 'missing')), 120)}", init.loc())
+        ck.check("C02.T2", a in asg and fexpand(asg[a]) == fexpand(_norm(w)), f"SrpClient.{a} = {show(w, 60)}", f"{ctx.fkey(init)}:{a}", f"SrpClient.__init__ sets {a} = {show(asg.get(a, ('unknown', 'missing')), 120)}", init.loc())
     binit = ctx.func(f"{SRP}.__init__")
     bcfg = ctx.cfg(binit.qualname)
     hu = [strip_sites(T.of(bcfg, n, n.ast.value)) for n in bcfg.nodes if n.kind == "stmt" and isinstance(n.ast, ast.Assign) and _u(n.ast.targets[0]) == "self.hu"]
@@ -444,7 +507,14 @@ def _t2(ctx: Context) -> None:
     scfg = ctx.cfg(ss.qualname)
     sp = ("param", ss.pos_params[1])
     salt_w = [(n, strip_sites(T.of(scfg, n, n.ast.value))) for n in scfg.nodes if n.kind == "stmt" and isinstance(n.ast, ast.Assign) and _u(n.ast.targets[0]) == "self.salt"]
-    okw = {w[1] for w in salt_w} == {big(sp), sp}
+    def _arms(t):  # what a conditional expression / several definitions can give
+        if t[0] == "ifexp":
+            return _arms(t[2]) + _arms(t[3])
+        if t[0] == "phi":
+            return [a for x in t[1] for a in _arms(x)]
+        return [t]
+
+    okw = {a for w in salt_w for a in _arms(w[1])} == {big(sp), sp}
     sb = [(n, strip_sites(T.of(scfg, n, n.ast.value))) for n in scfg.nodes if n.kind == "stmt" and isinstance(n.ast, ast.Assign) and _u(n.ast.targets[0]) == "self.salt_b"]
     okb = len(sb) == 1 and sb[0][1] == call(PAD, call(TBA, S("salt")), ("const", 16))
     xs = [(n, strip_sites(T.of(scfg, n, n.ast.value))) for n in scfg.nodes if n.kind == "stmt" and isinstance(n.ast, ast.Assign) and _u(n.ast.targets[0]) == "self.x"]
